@@ -325,6 +325,11 @@ func cmdCheck(args []string) int {
 			if !knownMet[k.Signature] {
 				knownMet[k.Signature] = true
 				lines = append(lines, fmt.Sprintf("KNOWN-FINDING: property=%s %s [%s]", id, k.What, k.Signature))
+				if os.Getenv("VERIF_DUMP_KNOWN") != "" && k.Witness != "" {
+					bz, _ := json.MarshalIndent(Trace{Check: id, Tier: *tier, Scenario: scenOf[sig], Finding: f}, "", " ")
+					os.MkdirAll(filepath.Dir(filepath.Join(verifRoot(), k.Witness)), 0o755)
+					os.WriteFile(filepath.Join(verifRoot(), k.Witness), bz, 0o644)
+				}
 			}
 			continue
 		}
